@@ -5,7 +5,7 @@ bit-vector mode): addi/subi/muli = + - *; divui/remui = floor division / remaind
 assumed non-negative: they are sizes, strides, bounds); shli = * 2^k; ori/andi only in bit-vector mode."""
 from xdsl.dialects.builtin import IndexType, IntAttr, IntegerAttr, IntegerType
 from xdsl.ir import Operation, SSAValue, den
-from pyvc.api import bv_const
+from pyvc.api import bv_and, bv_const, bv_lshr, bv_or, bv_shl
 
 
 MODE = {"bv": False}  # bit-vector mode: integer-typed constants denote fixed-width words
@@ -17,8 +17,7 @@ class ConstantOp(Operation):
             value_type = value.type
         self.value = value
         d = value.value.data
-        if MODE["bv"] and isinstance(value_type, IntegerType):
-            d = bv_const(d, value_type.width.data)
+        # constants keep their integer denotation; bit-level ops convert their operands to fixed-width words lazily
         self._init_op([], [d], [value_type])
 
     @staticmethod
@@ -34,6 +33,7 @@ class _Binary(Operation):
         rhs = SSAValue.get(rhs)
         if result_type is None:
             result_type = lhs.type
+        self.width = result_type.width.data if isinstance(result_type, IntegerType) else 64
         self._init_op([lhs, rhs], [self.sem(lhs.den, rhs.den)], [result_type])
 
     @property
@@ -87,22 +87,22 @@ class RemSIOp(_Binary):
 
 class ShLIOp(_Binary):
     def sem(self, a, b):
-        return a << b
+        return bv_shl(a, b, self.width) if MODE["bv"] else a << b
 
 
 class ShRUIOp(_Binary):
     def sem(self, a, b):
-        return a >> b
+        return bv_lshr(a, b, self.width) if MODE["bv"] else a >> b
 
 
 class OrIOp(_Binary):
     def sem(self, a, b):
-        return a | b
+        return bv_or(a, b, self.width) if MODE["bv"] else a | b
 
 
 class AndIOp(_Binary):
     def sem(self, a, b):
-        return a & b
+        return bv_and(a, b, self.width) if MODE["bv"] else a & b
 
 
 class XOrIOp(_Binary):
